@@ -3,7 +3,7 @@ CONSTANTS
  Confs <- LockConfs
  MaxCloses = 3
  MaxOps = 2
- NormKeys = TRUE
+ KeyMode = "clean"
  Eager = FALSE
 SPECIFICATION Spec
 INVARIANTS TypeOK LocksNonNeg LocksExact MarkIsReach FallbackPresent CopyKeeps
